@@ -51,13 +51,31 @@ impl PartialEq for TFn {
 }
 impl Eq for TFn {}
 
-fn ids(mask: Mask) -> TypeIds {
-    let mut v = TypeIds::new();
+/// The declaration list for a mask. The list is a *list*, not a set: depending on `salt` (the
+/// function's index) it is rotated (so it is not in any canonical order) and, one time in three,
+/// repeats its first entry at the end (`fn f(a: &A, b: &B, c: &A)` declares A twice). The model
+/// works on the set, which is all the properties speak about.
+fn ids(mask: Mask, salt: usize) -> TypeIds {
+    let mut tmp: Vec<TypeId> = Vec::new();
     let mut m = mask;
     while m != 0 {
         let t = m.trailing_zeros() as usize;
-        v.push(type_id_of(t));
+        tmp.push(type_id_of(t));
         m &= m - 1;
+    }
+    let mut v = TypeIds::new();
+    if tmp.is_empty() {
+        return v;
+    }
+    let rot = salt % tmp.len();
+    tmp.rotate_left(rot);
+    let first = tmp[0];
+    let len = tmp.len();
+    for t in tmp {
+        v.push(t);
+    }
+    if salt % 3 == 1 && (len >= 2 || salt % 2 == 1) {
+        v.push(first);
     }
     v
 }
@@ -65,11 +83,11 @@ fn ids(mask: Mask) -> TypeIds {
 impl DataAccessDyn for TFn {
     fn borrows(&self) -> TypeIds {
         ACCESS_QUERIES.with(|c| c.set(c.get() + 1));
-        ids(self.reads)
+        ids(self.reads, self.idx)
     }
     fn borrow_muts(&self) -> TypeIds {
         ACCESS_QUERIES.with(|c| c.set(c.get() + 1));
-        ids(self.writes)
+        ids(self.writes, self.idx / 2 + 1)
     }
 }
 
